@@ -191,12 +191,6 @@ def top_of_model(s, meth_line):
     return (s[0], s[1])
 
 
-def collapse(tops):
-    """jedi's API-level identity of a result: (module, name, position) - an instance and its
-    class coincide"""
-    return {('src', t[1]) if t[0] in ('inst', 'cls') else t for t in tops}
-
-
 def analyse(prog):
     import jedi
     text, probes, def_lines = P.source(prog)
@@ -596,9 +590,8 @@ def run(ctx):
                           sample={'source': src, 'line': rec['line'], 'runtime': rec['runtime'],
                                   'jedi': rec['jedi']})
                 if rt not in J:
-                    shape = 'class-and-instance-merged-by-api' if collapse({rt}) <= collapse(J) and \
-                        rt[0] in ('inst', 'cls') else 'unclassified'
-                    if shape == 'unclassified' and derived_init(prog):
+                    shape = 'unclassified'
+                    if derived_init(prog):
                         shape = 'derived-init-hides-base-self-attribute'
                     if ans is not None and ans.get('wf') and shape == 'unclassified':
                         # may_sound_partial says this cannot happen when model = code
@@ -617,7 +610,7 @@ def run(ctx):
             m = ans['probes'][k]
             M = {top_of_model(s, meth_line) for s in m['may']}
             ctx.count('may', (src, rec['n']), nontrivial=len(M) > 0, bucket='|may|=%d' % min(len(M), 4))
-            if not (J <= M and collapse(J) == collapse(M)):
+            if J != M:  # exact since Name.__eq__ tells a class from its instance (/repo 977a1a1)
                 ctx.tie_broken('correspondence:may', short({'source': src, 'line': rec['line'],
                                                             'jedi': sorted(J, key=repr), 'model': sorted(M, key=repr)}, 1500))
             if rec['runtime_model'] is not None:
